@@ -65,6 +65,7 @@ def statusJ {α} : Except Err α → Json
 def jSimOp (j : Json) : Except String SimOp := do
   match ← jArr j with
   | [.str "set", k, v] => pure (.setPar (← jStr k) (← jRat v))
+  | [.str "edit", c] => pure (.edit (← jSContent c))
   | [.str "reinit"] => pure .reinit
   | [.str "call", t, xs] => pure (.call (← jRat t) (← jList jRat xs))
   | _ => .error s!"bad sim op {j.compress}"
@@ -75,6 +76,12 @@ def jacResJ (r : Except Err (Option (List (List Rat)))) : Json :=
 /-- a history of the Simulator (`Model/C12Sim.lean`), run with the glue facts of the current source: per operation
     what the state machine hands to the integrator (`m`) and what a Simulator freshly built on the content of that
     moment would (`s`, `null` where a denominator of the equations or of the Jacobian vanishes there) -/
+def outJ : SimOut → Json
+  | .upd => Json.null
+  | .noJac => Json.mkObj [("ok", Json.null)]
+  | .mat J => Json.mkObj [("ok", matJ J)]
+  | .raised => Json.mkObj [("raised", .bool true)]
+
 def runHist (c : SContent) (ops : List SimOp) : Json :=
   match simInitG Mxl.C12.Generated.glue c with
   | .error e => Json.mkObj [("init", Json.mkObj [("err", errJ e)])]
@@ -94,16 +101,8 @@ def runHist (c : SContent) (ops : List SimOp) : Json :=
                  else jacResJ (callJac s.content t xs)
                | _, _ => jacResJ (callJac s.content t xs))
             | _ => Json.null
-          let mj : Json := match o with
-            | none => Json.null
-            | some none => Json.mkObj [("ok", Json.null)]
-            | some (some J) => Json.mkObj [("ok", matJ J)]
-          go s' rest (acc.push (Json.mkObj [("m", mj), ("s", fresh)]))
-    let outJ (o : SimOut) : Json := match o with
-      | none => Json.null
-      | some none => Json.mkObj [("ok", Json.null)]
-      | some (some J) => Json.mkObj [("ok", matJ J)]
-    -- the whole history at once (`runG`, what `C12_sim_history` is stated over): `null` when some step raises
+          go s' rest (acc.push (Json.mkObj [("m", outJ o), ("s", fresh)]))
+    -- the whole history at once (`runG`, what `C12_sim_history` is stated over): `null` when a re-initialisation raises
     let run : Json := match runG Mxl.C12.Generated.glue s0 ops with
       | .ok (_, outs) => .arr (outs.map outJ).toArray
       | .error _ => Json.null
